@@ -70,8 +70,62 @@ def star_collection(rng, max_vertices):
         if 1 <= m <= max_vertices:
             return realise(rng, m, edges)
 
+def compact_bstar(rng, k, t, r=0):
+    """B-type canonical star (k >= 1 single legs, t legs of length two, long leg r in {0, 3, 4}) realised by linearly
+    independent strings on FEW qubits - the canonical realisation of lean/PauLieVerif/Proofs/C01TypeBTwins.lean:
+    qubit 0: centre Z_0, first single leg X_0; leg s of length two: X_0 Z_s - X_s on its own qubit s; every further single leg
+    X_0 Z_q on its own qubit; a long leg of 3 is a leg of length two continued by Z_s Z_p (own qubit p), a long leg of 4
+    continues with X_p.  Vertices in leg order (centre, single legs, legs of length two, long leg); then a random qubit
+    permutation and per-qubit relabelling."""
+    assert k >= 1 and r in (0, 3, 4)
+    pairs = t + (1 if r else 0)
+    n = 1 + pairs + (k - 1) + (1 if r else 0)
+    def st(d):
+        return "".join(d.get(q, "I") for q in range(n))
+    out = [st({0: "Z"}), st({0: "X"})]
+    for i in range(k - 1):
+        out.append(st({0: "X", 1 + pairs + i: "Z"}))
+    for s_ in range(1, pairs + 1):
+        out += [st({0: "X", s_: "Z"}), st({s_: "X"})]
+    if r:
+        out.append(st({pairs: "Z", n - 1: "Z"}))
+        if r == 4:
+            out.append(st({n - 1: "X"}))
+    perm = list(range(n)); rng.shuffle(perm)
+    relabel = [dict(zip("XYZ", rng.sample("XYZ", 3))) for _ in range(n)]
+    res = []
+    for s_ in out:
+        u = ["I"] * n
+        for q, ch in enumerate(s_):
+            u[perm[q]] = ch if ch == "I" else relabel[q][ch]
+        res.append("".join(u))
+    return res
+
 def collection(rng, maxn, maxk, kind=None):
-    kind = kind or rng.choice(["random", "random", "sparse", "star", "star", "star+", "star-dep", "star-dep", "clo-dep", "path", "commuting", "union", "2local", "chain+", "chain+", "eq-summands", "eq-summands"])
+    kind = kind or rng.choice(["random", "random", "sparse", "star", "star", "star+", "star-dep", "star-dep", "clo-dep", "path", "commuting", "union", "2local", "chain+", "chain+", "eq-summands", "eq-summands", "bstar", "bstar"])
+    if kind == "bstar":
+        # B-type stars on few qubits (sp / su / so(2^m) names), plain, shuffled or obfuscated by contractions, sometimes with a
+        # dependent product, a duplicate or a spectator qubit
+        opts = [(k, t, r) for k in (1, 2, 3) for t in (1, 2, 3) for r in (0, 3, 4)
+                if (t >= 2 or r) and t + k + (2 if r else 0) <= maxn]
+        if not opts:
+            return collection(rng, maxn, maxk, "star")
+        k, t, r = rng.choice(opts)
+        gs = compact_bstar(rng, k, t, r)
+        mode = rng.random()
+        if mode < 0.3:
+            rng.shuffle(gs)
+        elif mode < 0.8:
+            gs = obfuscate(rng, gs, rng.randint(1, 4 * len(gs)))
+            rng.shuffle(gs)
+        if rng.random() < 0.25:
+            a, b = rng.sample(gs, 2)
+            if O.anti(O.enc(a), O.enc(b)):
+                gs.append(mulstr(a, b))
+        if len(gs[0]) < maxn and rng.random() < 0.2:
+            q = rng.randint(0, len(gs[0]))
+            gs = [g[:q] + "I" + g[q:] for g in gs]
+        return gs
     if kind == "random":
         n = rng.randint(1, maxn)
         return [rs(rng, n) for _ in range(rng.randint(1, maxk))]
